@@ -93,6 +93,10 @@ func (cl *compiler) compileFunc(fn *ast.FuncDecl) *Func {
 
 	cl.params = make(map[string]int, cl.fnType.Params().Len())
 	cl.intParams = make(map[string]int, cl.fnType.Params().Len())
+	// Several parameters can share a name ("_"), so count the slots
+	// instead of relying on the number of distinct names.
+	numObjectParams := 0
+	numIntParams := 0
 	for i := 0; i < cl.fnType.Params().Len(); i++ {
 		p := cl.fnType.Params().At(i)
 		paramName := p.Name()
@@ -101,15 +105,17 @@ func (cl *compiler) compileFunc(fn *ast.FuncDecl) *Func {
 			panic(cl.errorUnsupportedType(fn.Name, paramType, paramName+" param"))
 		}
 		if typeIsInt(paramType) {
-			cl.intParams[paramName] = len(cl.intParams)
+			cl.intParams[paramName] = numIntParams
+			numIntParams++
 		} else {
-			cl.params[paramName] = len(cl.params)
+			cl.params[paramName] = numObjectParams
+			numObjectParams++
 		}
 	}
 
 	dbg := funcDebugInfo{
-		paramNames:    make([]string, len(cl.params)),
-		intParamNames: make([]string, len(cl.intParams)),
+		paramNames:    make([]string, numObjectParams),
+		intParamNames: make([]string, numIntParams),
 	}
 	for paramName, i := range cl.params {
 		dbg.paramNames[i] = paramName
@@ -127,8 +133,8 @@ func (cl *compiler) compileFunc(fn *ast.FuncDecl) *Func {
 		code:            cl.code,
 		constants:       cl.constants,
 		intConstants:    cl.intConstants,
-		numObjectParams: len(cl.params),
-		numIntParams:    len(cl.intParams),
+		numObjectParams: numObjectParams,
+		numIntParams:    numIntParams,
 		name:            cl.ctx.Package.Path() + "." + fn.Name.String(),
 	}
 	if len(cl.locals) != 0 {
